@@ -1,6 +1,7 @@
 LC_HEADER = ('From LC Require Import Lib.Bytes Model.MountInfo Model.FsTree Model.Kernel Model.Layers Cases.LC Cases.%s.\n'
              'Open Scope string_scope.\n')
 PROP = dict(
+    pidns=True,
     go='c02', n_quick=120, n_thorough=1500,
     coq_header=LC_HEADER % 'C02',
     case_type='LC.case', verdict='C02.verdict',
